@@ -14,7 +14,8 @@ use xtmodel::{is_blank, ModelErr, TokDe};
 
 #[derive(Debug)]
 pub enum Error {
-	Io(io::Error),
+	/// the reader's own error is parked in xtmodel::IO_STASH
+	Io,
 	IoWrite,
 	Syntax,
 	Eof,
@@ -22,13 +23,13 @@ pub enum Error {
 }
 impl Error {
 	pub fn is_io(&self) -> bool {
-		matches!(self, Error::Io(_) | Error::IoWrite)
+		matches!(self, Error::Io | Error::IoWrite)
 	}
 }
 impl From<Error> for io::Error {
 	fn from(e: Error) -> io::Error {
 		match e {
-			Error::Io(e) => e,
+			Error::Io => xtmodel::take_io(),
 			Error::Eof => io::Error::from(io::ErrorKind::UnexpectedEof),
 			_ => io::Error::from(io::ErrorKind::InvalidData),
 		}
@@ -82,7 +83,8 @@ impl<R: Read> ReadTok for IoRead<R> {
 				Ok(_) => self.ahead = Some(b[0]),
 				Err(e) => {
 					unsafe { ghost::SOURCE_IO_ERROR = true };
-					return Err(Error::Io(e));
+					xtmodel::stash_io(e);
+					return Err(Error::Io);
 				}
 			}
 		}
